@@ -34,7 +34,7 @@ class Pool:
         b.close()
         return {'p': p, 'c': a, 'task': None, 't0': 0}
 
-    def run(self, jobs, progress=None):
+    def run(self, jobs, progress=None, stop=None):
         """jobs: list of (modname, fn, task).  Returns list of ('ok', result) | ('err', msg) | ('timeout', None)."""
         results = [None] * len(jobs)
         nxt = 0
@@ -42,6 +42,8 @@ class Pool:
         self.workers = [self._spawn() for _ in range(min(self.n, max(1, len(jobs))))]
         try:
             while done < len(jobs):
+                if nxt >= len(jobs) and all(w['task'] is None for w in self.workers):
+                    break
                 for w in self.workers:
                     if w['task'] is None and nxt < len(jobs):
                         w['task'] = nxt
@@ -67,6 +69,8 @@ class Pool:
                             if progress:
                                 progress(done, len(jobs))
                             continue
+                        if stop is not None and stop(results[w['task']]):
+                            nxt = len(jobs)        # sweep mode: dispatch nothing further; undispatched tasks stay None
                         w['task'] = None
                         done += 1
                         if progress:
